@@ -415,7 +415,9 @@ def run_case(case):
         res["counters"]["sys:" + s0["sys"]] = 1
         if run.exit0:
             res["counters"]["exit0-after-fault"] = 1
-            bad = judge(case, root, pre, post, run, res, tolerated=s0["sys"] if s0["sys"] in sites.TOLERATED else None)
+            # (with two faults, either of them may be a call whose failure the statement tolerates)
+            tol = [case["faults"][i]["site"]["sys"] for i in applied if case["faults"][i]["site"]["sys"] in sites.TOLERATED]
+            bad = judge(case, root, pre, post, run, res, tolerated=(tol[0] if s0["sys"] not in sites.TOLERATED else s0["sys"]) if tol else None)
             if s0["sys"] in sites.TOLERATED:
                 res["counters"]["tolerated-call-failed-exit0"] = 1
             if s0["sys"] in ("fsync", "fdatasync"):
